@@ -702,9 +702,22 @@ func (s *Sim) inject() {
 				if to != b {
 					s.class("inject:privateJunk")
 					var data []byte
-					if di := s.Dealers[b]; di != nil && di.Honest[to] != nil && g.Bool("shareAgain") {
+					di := s.Dealers[b]
+					switch kind := g.Int("privKind", 0, 3); {
+					case di != nil && di.Honest[to] != nil && kind == 0: // the honest share again (late or duplicated)
 						data = append([]byte{TagShare}, di.Honest[to]...)
-					} else {
+					case di != nil && di.Alt[to] != nil && kind == 1: // a well-formed share of another polynomial, possibly after the shares timeout
+						data = append([]byte{TagShare}, di.Alt[to]...)
+						s.class("inject:lateInconsistentShare")
+					case di != nil && di.Honest[to] != nil && kind == 2: // the honest share plus one
+						x := new(big.Int).SetBytes(di.Honest[to])
+						x.Add(x, big.NewInt(1)).Mod(x, scalarR)
+						if x.Sign() == 0 {
+							x.SetInt64(1)
+						}
+						data = append([]byte{TagShare}, scalar32(x)...)
+						s.class("inject:lateInconsistentShare")
+					default:
 						data = g.Bytes("privJunk", 0, 40)
 					}
 					s.enqueue(&delivery{from: b, to: to, data: data}, 0)
